@@ -389,6 +389,10 @@ func (m *MonFinality) AfterStep(nw *Network) {
 			s.lastRR = d.Body.RoundReceived
 			s.bodies[d.Index] = normBody(func() hg.BlockBody {
 				b := d.Body
+				if d.AckLost {
+					// Babble never saw the application's answer: it keeps the body as delivered
+					return b
+				}
 				b.StateHash = d.Resp.StateHash
 				b.InternalTransactionReceipts = d.Resp.InternalTransactionReceipts
 				return b
